@@ -348,6 +348,11 @@ def encodeEvent : Impl.Event → Spec.Event
   | .didChange v cs => .didChange v (cs.map encodeChange)
   | .didClose => .didClose
 
+/-- The byte offset `len8 pre` of `pre ++ post` lies between the `\r` and the `\n` of a `\r\n`
+line end — the only character boundary that is not a position of the editor. -/
+def splitsCrlf (pre post : List Char) : Bool :=
+  pre.getLast? == some '\r' && post.head? == some '\n'
+
 /-- The refinement relation of `c14_history`: the server's entry for the document agrees with the
 editor's copy — same text (as UTF-16 units), same version, open; a document the editor has closed
 (or never opened) is not open on the server. -/
